@@ -4,7 +4,7 @@
     reported code naming a rule the input really breaks."
 
    read / validate : Model/Validation.v (the code as written); violates : Spec/Rules.v (the documentation page, readings R1-R10);
-   known : Spec/Rules.v (four structural deviation classes K6..K9, each one a finding with a witness below; K1, K2, K3 were
+   known : Spec/Rules.v (five structural deviation classes K6..K9 and G2, each one a finding with a witness below; K1, K2, K3 were
    repaired in /repo by c324ed4, d5aa3e7, 89050ae and K4, K5, K10 by d67b161, 7653bff, 11fbd19: all six are covered by the
    theorems now);
    gen_* : Generated/RuleTable.v (re-extracted from the Rust sources and the documentation page on every run).
@@ -43,16 +43,22 @@ Theorem C10_validated_reader_safe_partial : forall d, known d = false ->
   (forall c, In c (map fst all_checks) -> violates c d = false) -> reader_panics d = false.
 Proof. exact reader_safe. Qed.
 
-(* the reader step create_transport_costs on a supplied matrix with `errorCodes`: it fails (E0002) exactly when there are fewer
-   codes than distances ("not enough error codes specified", repair f7d2f27 of finding X15) or an entry that is not marked
-   unreachable (code <= 0) lies beyond travelTimes or distances ("invalid matrix index"); otherwise both cost vectors have the
-   length of errorCodes, which covers the distances; without errorCodes the data is taken as is.  The step has no panicking outcome in
-   the model (`.get(i).ok_or_else(..)?`); that, and the remaining E0002 conditions (run_transport), are validated by the correspondence. *)
+(* the step between read_fleet and the job reader, DynamicTransportCost::new over the required breaks of every shift (E0002 "check fleet
+   definition"), cannot fail outside the known class G2 *)
+Theorem C10_reserved_times_ok_partial : forall d, known d = false -> reserved_fails d = false.
+Proof. exact reserved_ok_known. Qed.
+
+(* the reader step create_transport_costs on a supplied matrix with `errorCodes`: since 7d3c5fe (finding C16-F4) it fails (E0002)
+   exactly when errorCodes, travelTimes and distances do not have one common length ("not enough error codes specified" of f7d2f27, the
+   repair of finding X15, is the case of fewer codes; "invalid matrix index" cannot occur any more); otherwise both cost vectors have that
+   length; without errorCodes the data is taken as is.  The step has no panicking outcome in the model (`.get(i).ok_or_else(..)?`); that,
+   and the remaining E0002 conditions (run_transport, xtransport_fails), are validated by the correspondence. *)
 Theorem C10_matrix_step_spec : forall m,
   (matrix_data m = None <-> exists ec, m_errors m = Some ec /\
-        ((List.length ec < List.length (m_dist m))%nat \/ no_data 0 ec (m_travel m) (m_dist m)))
+        (List.length ec <> List.length (m_dist m) \/ List.length (m_travel m) <> List.length (m_dist m)))
   /\ (forall ec x y, m_errors m = Some ec -> matrix_data m = Some (x, y) ->
-        List.length x = List.length ec /\ List.length y = List.length ec /\ (List.length (m_dist m) <= List.length ec)%nat)
+        List.length x = List.length ec /\ List.length y = List.length ec /\ List.length (m_dist m) = List.length ec
+        /\ List.length (m_travel m) = List.length ec)
   /\ (m_errors m = None -> matrix_data m = Some (m_travel m, m_dist m)).
 Proof. exact matrix_step_spec_l. Qed.
 
@@ -128,6 +134,10 @@ Theorem C10_read_total_K7_refuted : exists d, k7_over8 d = true /\ breaks_no_rul
 Proof. exists w_k7. exact k7_witness. Qed.
 Theorem C10_read_total_K9_refuted : exists d, k9_no_vehicles d = true /\ breaks_no_rule d /\ validate d = VOk /\ read d = RPanic.
 Proof. exists w_k9. exact k9_witness. Qed.
+(* G2  required breaks of one shift of both kinds (exact + offset): no documented rule is broken, validation passes, the reader
+   answers E0002 (found while the reader behind validation was modelled step by step; the first version of `read` lacked this step) *)
+Theorem C10_accept_iff_G2_refuted : exists d, g2_required_breaks_of d = true /\ breaks_no_rule d /\ validate d = VOk /\ read d = RErr [2].
+Proof. exists w_g2. exact g2_witness_base. Qed.
 (* K8  pickups and deliveries with empty demand vectors: E1102 reported although the sums are equal *)
 Theorem C10_codes_exact_K8_refuted : exists d, k8_empty_demand_vectors d = true /\ read d = RErr [1102] /\ violates 1102 d = false.
 Proof. exists w_k8. exact k8_witness. Qed.
@@ -234,6 +244,11 @@ Theorem C10_x_validated_reader_safe_partial : forall d, xknown d = false ->
   /\ locks_panic d = false /\ goal_step d = SOk /\ cluster_step d = SOk
   /\ (xtransport_fails (x_profiles d) (seen_matrices d) = false -> jobs_index_panics d = false).
 Proof. exact xreader_safe_l. Qed.
+
+(* the extended model is conservative: on a base document (no relations, objectives, clustering, matrices, index locations) outside the
+   known classes it answers what the base model `read` answers - the theorems of the first half are the special case *)
+Theorem C10_x_conservative_over_base : forall d, is_base_document d = true -> xknown d = false -> xread d = read (xbase d).
+Proof. exact xconservative_l. Qed.
 
 (* the extended model runs the rules of the source, all five groups, in the order of the source *)
 Theorem C10_x_model_table_matches_source :
